@@ -2,7 +2,7 @@
 """regenerates the seeded-change table of DESIGN.md §12.6 from seeded/*/meta.json"""
 import glob, json, os, re
 root = os.path.dirname(os.path.dirname(os.path.abspath(__file__)))
-rows = ["| seed | written against | confirmed on pinned tree | check run | patch | result |", "|---|---|---|---|---|---|"]
+rows = ["| seed | written against | confirmed on its base tree | check run | patch | result |", "|---|---|---|---|---|---|"]
 for d in sorted(glob.glob(os.path.join(root, "seeded", "*"))):
     try:
         m = json.load(open(os.path.join(d, "meta.json")))
